@@ -65,6 +65,8 @@ impl HttpProcessor for Http1Processor {
             "MOVE",
             "LOCK",
             "UNLOCK",
+            "MKCALENDAR",
+            "REPORT",
         ];
 
         // SPECIFIC: Must be exact HTTP/1.0 or HTTP/1.1
